@@ -5,6 +5,7 @@ import EtkVerif.Driver.AnnCmd
 import EtkVerif.Driver.SmtCmd
 import EtkVerif.Driver.CfgCmd
 import EtkVerif.Driver.AsmCmd
+import EtkVerif.Driver.FsCmd
 open EtkVerif.Driver
 
 def dispatch (line : String) : String :=
@@ -20,6 +21,7 @@ def dispatch (line : String) : String :=
     else if cmd == "cfg" then cmdCfg args
     else if cmd == "asm" then cmdAsm args
     else if cmd == "asmspec" then cmdAsmSpec args
+    else if cmd == "asmfs" then cmdAsmFs args
     else s!"bad-op {cmd}"
   | [] => "bad-op"
 
